@@ -103,7 +103,8 @@ func c13Request(rng *hx.Rng, level int, allowEmptyRange bool) *wreq {
 				p.deltas = append(p.deltas, d)
 			}
 			if level == 1 || rng.Chance(60) {
-				p.part = pstr("pk")
+				// present, possibly EMPTY: an optional proto field that is set to its zero value is not absent
+				p.part = pstr(hx.Pick(rng, []string{"pk", "pk", "", "a"}))
 			}
 			if level == 1 {
 				p.exp = nil
@@ -111,6 +112,12 @@ func c13Request(rng *hx.Rng, level int, allowEmptyRange bool) *wreq {
 					p.exp = p64(-1)
 				}
 			}
+		}
+		if p.part == nil && rng.Chance(10) {
+			p.part = pstr(hx.Pick(rng, []string{"", "pk"}))
+		}
+		if rng.Chance(20) {
+			p.ident = pstr(hx.Pick(rng, []string{"", "client-1"}))
 		}
 		if rng.Chance(25) {
 			p.idx = [][2]string{{hx.Pick(rng, []string{"a", "a/b", "", "n\x01"}), hx.Pick(rng, []string{"k", "k\x01x", "", "k/z", "\n"})}}
@@ -145,6 +152,35 @@ func c13Request(rng *hx.Rng, level int, allowEmptyRange bool) *wreq {
 		w.ranges = append(w.ranges, rangeOp{a, b})
 	}
 	return w
+}
+
+// c13OptionalSweep: one put per combination of the optional fields of a PutRequest being absent / present with the
+// zero value / present with another value, with and without sequence deltas, then the same for deletes.
+// (absent and present-zero are different requests: ExpectedVersionId 0, SessionId 0, ClientIdentity "", PartitionKey "")
+func c13OptionalSweep() []*wreq {
+	var res []*wreq
+	parts := []*string{nil, pstr(""), pstr("p")}
+	exps := []*int64{nil, p64(0), p64(-1)}
+	sess := []*int64{nil, p64(0)}
+	idents := []*string{nil, pstr("")}
+	deltas := [][]uint64{nil, {1}, {0}, {0, 1}, {2, 0}}
+	n := 0
+	for _, pa := range parts {
+		for _, ex := range exps {
+			for _, se := range sess {
+				for _, id := range idents {
+					for _, de := range deltas {
+						n++
+						res = append(res, &wreq{puts: []putOp{{key: fmt.Sprintf("o%d", n), value: nil, part: pa, exp: ex, sess: se, ident: id, deltas: de}}})
+					}
+				}
+			}
+		}
+	}
+	for _, ex := range exps {
+		res = append(res, &wreq{dels: []delOp{{key: "o2", exp: ex}, {key: "", exp: ex}}})
+	}
+	return res
 }
 
 // plainUser: a request nobody could object to (used for the completeness side of the validation verdict)
@@ -245,6 +281,14 @@ func c13DbMain(o *hx.Out, f hx.Flags) {
 			}
 		})
 	}
+	// every combination of absent / present-zero optional fields: through the validation and through ProcessWrite
+	runCase(o, "hseq", 3, false, "c13optional", "optional", func(r *runner) {
+		for i, w := range c13OptionalSweep() {
+			w.offset, w.ts = int64(i), uint64(1000+i)
+			c13RunVal(o, w.String())
+			c13DoWrite(r, w)
+		}
+	})
 	// the validation alone, on requests that are never run (both bounds empty included)
 	for i := 0; i < 4*f.N; i++ {
 		w := c13Request(rng, rng.Intn(3), true)
